@@ -21,4 +21,5 @@ Spec == Init /\ [][Next]_vars
 
 RoundTrip == JsDenote(Emit(pos, s), Delim(pos)) = [ok |-> TRUE, v |-> s]
 Safe == SafeBody(Emit(pos, s), Delim(pos))
+PerCharacter == Homomorphic(pos, s)
 =============================================================================
